@@ -16,6 +16,7 @@ import (
 	"os"
 	"os/exec"
 	"path/filepath"
+	"regexp"
 	"sort"
 	"strconv"
 	"strings"
@@ -107,6 +108,15 @@ func loadKnown() *KnownFile {
 	return k
 }
 
+// harnessPkgs: the packages whose per-property harness files (zz_verif_cNN*.go,
+// zz_verif_smoke*.go) take part in the current run. Shared scaffolding (rt, env,
+// models, constructors, support files) is always included; per-property harness
+// files of other packages are left out so that one property's harnesses cannot
+// break (or slow down) another property's check.
+var harnessPkgs = map[string]bool{}
+
+var perPropertyFile = regexp.MustCompile(`^zz_verif_(c[0-9]+|smoke)`)
+
 // overlayFiles maps virtual /repo paths to real files under overlayDir.
 func overlayFiles() map[string]string {
 	m := map[string]string{}
@@ -115,6 +125,11 @@ func overlayFiles() map[string]string {
 			return nil
 		}
 		rel, _ := filepath.Rel(overlayDir, p)
+		if perPropertyFile.MatchString(filepath.Base(p)) && len(harnessPkgs) > 0 {
+			if !harnessPkgs["metacontroller/"+filepath.Dir(rel)] {
+				return nil
+			}
+		}
 		m[filepath.Join(repoDir, rel)] = p
 		return nil
 	})
@@ -300,6 +315,8 @@ func configureEngine() {
 	interp.InitDeny = []string{"metacontroller/pkg/client/generated/", "metacontroller/pkg/metrics"}
 	interp.InitAllowExact = map[string]bool{
 		"k8s.io/client-go/util/retry": true,
+		// knownReasons: a map literal of constants
+		"k8s.io/apimachinery/pkg/api/errors": true,
 	}
 	m := "metacontroller/pkg/zzverif/models."
 	interp.Redirect = map[string]string{
@@ -411,6 +428,7 @@ func cmdRun(args []string) int {
 		}
 		specs = append(specs, h)
 		patSet[h.Pkg] = true
+		harnessPkgs[h.Pkg] = true
 	}
 	if len(specs) == 0 {
 		fatal("no harness for %s at tier %s", id, *tier)
@@ -799,6 +817,7 @@ func cmdReplay(args []string) int {
 	if err := json.Unmarshal(b, &rf); err != nil {
 		fatal("%v", err)
 	}
+	harnessPkgs[rf.Pkg] = true
 	ld := load([]string{rf.Pkg})
 	pkg := ld.pkgs[rf.Pkg]
 	res, out, err := nativeRun(rf.Pkg, pkg.Pkg.Name(), harnessFuncs(pkg), []Case{{Harness: rf.Violation.Harness, Nondets: rf.Violation.Nondets, Tier: rf.Tier, Repeat: 12}})
